@@ -228,8 +228,12 @@ def run_property(pid, tier, repo, seed, write_evidence=True, only=None):
         else:
             violations.append((r, f))
     # evidence
-    n_obl = sum(len(r["obligations"]) for r in results if not r.get("bounded"))
-    n_dis = sum(1 for r in results if not r.get("bounded") for o in r["obligations"] if o["status"] == "discharged")
+    # obligations the check demands on this tree: the cells listed as open known findings are reported separately
+    # (KNOWN-FINDING lines) and are not counted as obligations, discharged or otherwise
+    known_failed = {f["obligation"] for k, f in known_hits}
+    n_obl = sum(1 for r in results if not r.get("bounded") for o in r["obligations"] if o["id"] not in known_failed)
+    n_dis = sum(1 for r in results if not r.get("bounded") for o in r["obligations"]
+                if o["status"] == "discharged" and o["id"] not in known_failed)
     wall = time.time() - t0
     rc = 0
     lines = []
